@@ -1,5 +1,5 @@
 (* MV.C03.Properties — property C03 ("every actor incarnation sees a well-formed lifecycle") on the kernel model. *)
-From MV Require Import Kernel.Launch Kernel.Restart Kernel.Hierarchy Kernel.Held.
+From MV Require Import Kernel.Launch Kernel.Restart Kernel.Terminate Kernel.Fresh Kernel.Hierarchy Kernel.Held.
 From MV Require Import Lib.ListX Kernel.Model Kernel.Run Kernel.Lifecycle Kernel.Status Kernel.Registry Kernel.Suspend Kernel.NoUser.
 Open Scope Z_scope.
 
@@ -176,4 +176,64 @@ Proof.
   split; [repeat constructor; cbn; lia|].
   eexists. eexists. eexists. eexists. split; [vm_compute; reflexivity|]. split; [vm_compute; reflexivity|].
   split; [reflexivity|]. split; [reflexivity|]. split; [reflexivity|discriminate].
+Qed.
+
+(* Clause "OnTerminate is handled before the incarnation's own OnTerminated" (Kernel/Terminate.v; trace-indexed invariant: every
+   object is a system actor, or is not Terminating, or its current incarnation has handled OnTerminate): for every role table, every
+   run from the freshly started system and every following step, an incarnation of a non-system actor whose status becomes
+   Terminated in that step — the step in which it handles its own OnTerminated and leaves the registry — has handled OnTerminate:
+   in an earlier step of the run, or in this very step (a termination that finds no child left completes within the step that
+   handles OnTerminate; there OnTerminate comes first by the construction of processMessage, which the lockstep compares
+   observation by observation). The status reaches Terminating only by processing the terminate request, which handles OnTerminate at
+   once under the unchanged instance number, and from Terminating it can only go on to Terminated. (The OnTerminate / OnTerminated
+   pair that a restart delivers to the old instance is C03_restart_completes_in_order. An observation "OnTerminated naming my own
+   address" can also be a notice about an EARLIER holder of that address handed to an actor that watches its own address; that is a
+   notice, not the actor's termination, which is why the statement is about the status change.) *)
+Theorem C03_terminate_before_terminated : forall roles ls s os l s' o u a a',
+  krun roles kinit ls = Some (s, os) -> kstep roles s l = Some (s', o) ->
+  get s u = Some a -> get s' u = Some a' -> is_sys (a_tok a) = false -> a_st a <> Terminated -> a_st a' = Terminated ->
+  exists sn sd, In (OH (a_tok a') (a_inst a') TT sn sd) (concat os ++ o).
+Proof. exact terminate_before_terminated. Qed.
+Print Assumptions C03_terminate_before_terminated.
+
+Example C03_terminate_before_terminated_example :
+  exists s os s' o a a', krun c03_roles kinit (firstn 7 c03_labels) = Some (s, os) /\ kstep c03_roles s (LRun 2) = Some (s', o) /\
+    get s 2 = Some a /\ get s' 2 = Some a' /\ is_sys (a_tok a) = false /\ a_st a = Alive /\ a_st a' = Terminated /\ a_inst a' = 1%nat.
+Proof.
+  eexists. eexists. eexists. eexists. eexists. eexists. split; [vm_compute; reflexivity|]. split; [vm_compute; reflexivity|].
+  split; [vm_compute; reflexivity|]. split; [vm_compute; reflexivity|]. repeat split.
+Qed.
+
+(* "... on a fresh instance obtained from the provider" (Kernel/Fresh.v). Instance numbers are handed out by the provider of an
+   address, one after the other. For every role table and every run from the freshly started system: a non-system object's
+   instance number is below the number of instances the provider of its address has produced so far; an instance number that
+   changes in a step grows (only a completed restart changes it: it installs the provider's count at that moment); and in any
+   state with that invariant the completing step of a restart installs a number STRICTLY GREATER than the one it replaces. *)
+Theorem C03_instance_below_provider_count : forall roles ls s os u a,
+  krun roles kinit ls = Some (s, os) -> get s u = Some a -> is_sys (a_tok a) = false -> (a_inst a < pcount s (a_tok a))%nat.
+Proof. exact instance_below_provider_count. Qed.
+Print Assumptions C03_instance_below_provider_count.
+
+Theorem C03_instance_numbers_only_grow : forall roles ls s os l s' o u a a',
+  krun roles kinit ls = Some (s, os) -> kstep roles s l = Some (s', o) ->
+  get s u = Some a -> get s' u = Some a' -> is_sys (a_tok a) = false -> a_inst a' <> a_inst a -> (a_inst a < a_inst a')%nat.
+Proof. exact instance_numbers_only_grow. Qed.
+Print Assumptions C03_instance_numbers_only_grow.
+
+Theorem C03_restart_installs_a_fresh_instance : forall roles s u snd a s' o p,
+  PI s -> get s u = Some a -> a_children a = [] -> a_st a = Restarting -> is_sys (a_tok a) = false ->
+  try_restarted roles s u snd = (s', o, p) -> exists a', get s' u = Some a' /\ (a_inst a < a_inst a')%nat.
+Proof. exact restart_fresh. Qed.
+Print Assumptions C03_restart_installs_a_fresh_instance.
+
+(* its hypotheses on the concrete state of C03_restart_completes_example: the invariant holds there (reachable state, then a
+   status update), and the completing step replaces instance 0 by instance 1 *)
+Example C03_fresh_instance_example :
+  exists s os, krun c03_roles kinit [LSpawn 0 0; LRun 2] = Some (s, os) /\ PI (upd_actor s 2 (w_st Restarting)) /\
+    exists a', get (fst (fst (try_restarted c03_roles (upd_actor s 2 (w_st Restarting)) 2 rNone))) 2 = Some a' /\ a_inst a' = 1%nat.
+Proof.
+  destruct (krun c03_roles kinit [LSpawn 0 0; LRun 2]) as [[s os]|] eqn:E; [|vm_compute in E; discriminate].
+  exists s, os. split; [reflexivity|]. split.
+  - eapply PI_sig; [apply sig_upd_actor; intros; split; reflexivity|]. eapply krun_PI; [apply PI_init|exact E].
+  - vm_compute in E. inversion E; subst. eexists. split; vm_compute; reflexivity.
 Qed.
